@@ -52,7 +52,7 @@ Definition C07_full_statement : Prop :=
 Local Open Scope N_scope.
 Example C07_example :
   let mk deps p := {| s_deps := deps; s_ifcreate := []; s_always := false; s_stamp := false;
-                      s_out := OStdout; s_payload := p; s_cat := true; s_exit := 0%Z |} in
+                      s_out := OStdout; s_payload := p; s_cat := true; s_exit := 0%Z; s_tol := false |} in
   let b := [98] in let l := [108] in let r := [114] in let t := [116] in
   let h := [SWriteDo (b ++ b_do) (mk [] 1); SWriteDo (l ++ b_do) (mk [b] 2); SWriteDo (r ++ b_do) (mk [b] 3);
             SWriteDo (t ++ b_do) (mk [l; r] 4); SCmd (CIfChange false [t; l; [46;47;116]])] in
